@@ -275,6 +275,31 @@ def fam_opus_imitation(tier):
                'sig': 'C13:acorn:sector16-table-in-short-image', 'note': 'table variant %s, image cut to 800 sectors' % nm}
 
 
+def fam_opus_partial(tier):
+    """Acorn disc whose file covers sectors 2..16 with an Opus table listing volume A (in range, the disc's real catalogue) plus ONE OR TWO further volumes B..H, each with a valid-looking catalogue in its slot, one of them starting beyond the disc (just beyond / far beyond): not self-consistent, so Acorn"""
+    ecat0, ecat1 = disc.catalogue(b'VOLX', 1, 0, 360, [])
+    for tracks, tot in ((80, 1440), (40, 720)):
+        for slot in range(1, 8):
+            for bad in (tracks + 1, 200, 255):
+                for extra in (None, 2):          # optionally a further, in-range volume (sorted before the bad one)
+                    tab = bytearray(256)
+                    tab[0], tab[1], tab[2], tab[3], tab[4] = 0x20, tot >> 8, tot & 0xFF, 18, tracks
+                    tab[8] = 1
+                    tab[8 + 2 * slot] = bad
+                    pokes = [[2 * slot * 256, (ecat0 + ecat1).hex()]]
+                    if extra:
+                        es = 1 + (slot % 7)
+                        if es == slot:
+                            continue
+                        tab[8 + 2 * es] = extra + 1
+                        pokes.append([2 * es * 256, (ecat0 + ecat1).hex()])
+                    pokes.append([16 * 256, bytes(tab).hex()])
+                    yield {'kind': 'acorn', 'tracks': tracks, 'spt': 18, 'ext': 'sdd', 'total': min(tot, 1023), 'files': [[2, 15 * 256]], 'poke': pokes,
+                           'sig': 'C13:acorn:sector16-incomplete-table:one-volume-beyond-disc-among-valid-ones',
+                           'note': '%d tracks: table lists A@1%s and %s@%d (beyond the disc), catalogues present' % (
+                               tracks, ' +1 in range' if extra else '', 'ABCDEFGH'[slot], bad), 'differential': True}
+
+
 def fam_side2_imitation(tier):
     """catalogue-like file bodies at every side-2 offset the prober consults (sectors 350/400/800, 630/720/1440, and the interleaved offsets)"""
     cat0, cat1 = disc.catalogue(b'FAKE', 1, 0, 400, [disc.Entry(b'Z', b'$', False, 0, 0, 256, 2)])
@@ -292,7 +317,7 @@ def fam_side2_imitation(tier):
 
 
 FAMILIES = [('M-variant-geometry-container', fam_matrix), ('A-watford-marker-imitation', fam_marker_imitation),
-            ('O-opus-table-imitation', fam_opus_imitation), ('S-side2-catalogue-imitation', fam_side2_imitation),
+            ('O-opus-table-imitation', fam_opus_imitation), ('P-opus-partly-consistent-tables', fam_opus_partial), ('S-side2-catalogue-imitation', fam_side2_imitation),
             ('W-watford-every-start-sector', fam_watford_starts)]
 
 
